@@ -178,6 +178,15 @@ func exec(ops []string, o *vu.Out) {
 		if _, _, ok := p.Chain(); !ok {
 			fail(op + ": tail is not the last chunk of the chain")
 		}
+		// a non-empty window can always be peeked into (the head chunk reaches beyond the window start)
+		if re > rs {
+			var pk []byte
+			if res := vu.Catch(func() string { pk = p.Peek(1); return "ok" }); res != "ok" || len(pk) != 1 {
+				fail(fmt.Sprintf("%s: peek(1) returned %d bytes (%s) although the window [%d,%d) is not empty", op, len(pk), res, rs, re))
+			} else if w, ok := ref[rs]; ok && w != pk[0] {
+				fail(fmt.Sprintf("%s: peek(1) = %#x, last written at %d is %#x", op, pk[0], rs, w))
+			}
+		}
 		if re-rs > 1<<16 {
 			return
 		}
@@ -316,6 +325,7 @@ func exec(ops []string, o *vu.Out) {
 			checkBytes(op, rs, got)
 			if len(got) == 0 && n > 0 && re > rs {
 				o.Stat("peek:empty-with-data")
+				fail(fmt.Sprintf("%s returned nothing although the window [%d,%d) is not empty", op, rs, re))
 			} else if int64(len(got)) < min(n, re-rs) {
 				o.Stat("peek:short")
 			} else {
